@@ -70,7 +70,7 @@ func c06ItemReserve(ix int) string {
 	return ""
 }
 
-const c06InsForms = 9
+const c06InsForms = 10
 
 func c06Insert(name string, form int) *Node {
 	tag := strings.ToUpper(name)
@@ -90,6 +90,8 @@ func c06Insert(name string, form int) *Node {
 	case 8: // the body reads the loop variable of the layout block around the reserve (in-place evaluation)
 		// ... and ends that loop from inside the insert (the reserve is replaced by the insert content, directives included)
 		return &Node{K: "insert", Name: name, Body: []*Node{nText("I" + tag + "[i="), nPrint(eVar("i")), nText("]"), {K: "breakif", E: eBin("==", eVar("i"), eLit(vInt(2)))}, nText("z")}}
+	case 9: // the body uses a component (resolved for the page, evaluated where the reserve stands)
+		return &Node{K: "insert", Name: name, Body: []*Node{nText("I" + tag + "{"), {K: "component", Name: "lc", HasArgs: true, Keys: []string{"a"}, Vals: []*Expr{eVar("v")}}, nText("}")}}
 	case 7: // the body assigns a variable that the layout may read after the reserve
 		return &Node{K: "insert", Name: name, Body: []*Node{nAssign("w", eLit(vStr("dark"+tag))), nText("I" + tag + "-set")}}
 	}
